@@ -72,10 +72,40 @@ fn de_ops<T: Model + BorshDeserialize>(op: &str, args: &[&str]) -> Option<String
                     Ok(x) => format!("ok {} -", show(&x.to_val())),
                     Err(e) => err_s(&e),
                 },
+                "deserialize_reader" | "try_from_reader" | "from_reader" => {
+                    let mut rd = CountingReader { data: &b, pos: 0 };
+                    let r = match *mode {
+                        "deserialize_reader" => T::deserialize_reader(&mut rd),
+                        "try_from_reader" => T::try_from_reader(&mut rd),
+                        _ => borsh::from_reader::<_, T>(&mut rd),
+                    };
+                    let pulled = rd.pos;
+                    match r {
+                        Ok(x) => {
+                            let rest = if *mode == "deserialize_reader" { hex(&b[pulled..]) } else { "-".to_string() };
+                            format!("ok {} {}\tpulled={}", show(&x.to_val()), rest, pulled)
+                        }
+                        Err(e) => format!("{}\tpulled={}", err_s(&e), pulled),
+                    }
+                }
                 _ => return None,
             })
         }
         _ => None,
+    }
+}
+
+/// A reader over a slice that hands out whatever is asked and counts what was pulled.
+pub struct CountingReader<'a> {
+    pub data: &'a [u8],
+    pub pos: usize,
+}
+impl<'a> borsh::io::Read for CountingReader<'a> {
+    fn read(&mut self, buf: &mut [u8]) -> borsh::io::Result<usize> {
+        let n = buf.len().min(self.data.len() - self.pos);
+        buf[..n].copy_from_slice(&self.data[self.pos..self.pos + n]);
+        self.pos += n;
+        Ok(n)
     }
 }
 
